@@ -1890,7 +1890,11 @@ func (bc *Blockchain) AddBlock(block *block.Block) error {
 			// Transactions are verified before adding them
 			// into the pool, so there is no point in doing
 			// it again even if we're verifying in-block transactions.
-			if bc.memPool.ContainsKey(tx.Hash()) {
+			// The hash doesn't cover witnesses, so the verification result of the
+			// mempooled transaction is valid only for the very same witnesses.
+			if pooledTx, ok := bc.memPool.TryGetValue(tx.Hash()); ok && slices.EqualFunc(pooledTx.Scripts, tx.Scripts, func(a, b transaction.Witness) bool {
+				return bytes.Equal(a.InvocationScript, b.InvocationScript) && bytes.Equal(a.VerificationScript, b.VerificationScript)
+			}) {
 				err = mp.Add(tx, bc)
 				if err == nil {
 					continue
